@@ -1,5 +1,6 @@
 import PyramidModel.Lemmas.Static
 import PyramidModel.Lemmas.StaticUrl
+import PyramidModel.Lemmas.StaticOv
 import PyramidModel.Gen.C16
 /-!
 # C16 — static views serve only files inside their root
@@ -434,6 +435,123 @@ example : findBestMatch (some ["gzip"]) (possibleFiles exFs exView "/srv/www/a.t
     = some ⟨"/srv/www/a.txt.gz".toList, some "gzip"⟩ ∧
   findBestMatch (some ["br"]) (possibleFiles exFs exView "/srv/www/a.txt".toList) = some ⟨"/srv/www/a.txt".toList, none⟩ ∧
   findBestMatch none (possibleFiles exFs exView "/srv/www/a.txt".toList) = some ⟨"/srv/www/a.txt".toList, none⟩ := by decide
+
+/-! ## 6. package roots of every shape and asset overrides (`config.override_asset`)
+
+A package-relative static view asks `pkg_resources`, and `pkg_resources` asks the overrides declared for the package
+first (`OverrideProvider`): most recent first, the first source in which the resource exists answers, otherwise the
+package itself.  `staticViewOv` is the view with that layer and with the package-ROOT spec `pkg:` (empty docroot,
+3e07f6a); without overrides and with a non-empty docroot it is the `staticView` of §3 (tied by the correspondence
+run: the driver serves every request through `staticViewOv`). -/
+
+/-- generated obligation: `get_resource_name` of the tree under test for the package-ROOT spec `pkg:` (empty
+docroot: names stay relative; the root itself redirects / takes the index name `/index.html`) is the model's -/
+theorem gen_pkg_root_name_probe :
+    Gen.pkgRootNameProbe.length ≥ 200 ∧
+    ∀ e ∈ Gen.pkgRootNameProbe,
+      nameOutcomeTag (resourceName
+        { isDir := fun p => p = "/probe-base".toList, isThere := fun p => p = "/probe-base".toList, size := fun _ => 0 }
+        { probeView true [] with docroot := [] } e.1 e.2.1) = e.2.2 := by decide +kernel
+
+/-- generated obligation: `FSAssetSource.get_path` (leading slashes of the name stripped before the join, the bare
+prefix for the empty name) and `PackageAssetSource.get_path` (prefix + name) are the model's `Source.osPath` -/
+theorem gen_source_path_probe :
+    Gen.sourcePathProbe.length ≥ 60 ∧
+    ∀ e ∈ Gen.sourcePathProbe,
+      (if e.1 then e.2.1 ++ e.2.2.1 else (Source.fs e.2.1).osPath e.2.2.1) = e.2.2.2 := by decide +kernel
+
+/-- generated obligation: which names an override matches and what it hands on (`DirectoryOverride` for an empty
+path or one ending in `/`, `FileOverride` otherwise) is the model's `Override.apply` -/
+theorem gen_override_apply_probe :
+    Gen.overrideApplyProbe.length ≥ 60 ∧
+    ∀ e ∈ Gen.overrideApplyProbe,
+      ((Override.mk e.1 (.fs [])).apply e.2.1).map (·.2) = e.2.2 := by decide +kernel
+
+/-- **Extended containment.**  For every package-relative configuration (`pkg:`, `pkg:dir`, `pkg:dir/`, nested
+directories), every list of well-formed overrides (whole package / directory / single file; package sources and
+filesystem sources with or without trailing slash; any number, any order) and every subpath tuple: whatever the view
+opens lies strictly inside the static root, or is the file / lies strictly inside the directory that one of the
+DECLARED overrides was declared with — never anywhere else. -/
+theorem override_containment (fs : Fs) (w : OvView) (hw : OvWf w)
+    (hroot : pkgIsDir fs w (pkgResourcePath w.v.docroot []) = true) (ae : Option (List Enc)) (slash : Bool)
+    (segs : List Seg) (p : Text)
+    (h : (∃ e b, staticViewOv fs w ae slash segs = .file p e b) ∨ staticViewOv fs w ae slash segs = .isADirectory p) :
+    Under (pkgRoot w.v) p ∨ ∃ o ∈ w.ovs, InOverride o p :=
+  staticViewOv_where fs w hw hroot ae slash segs p h
+
+/-- … for every raw `PATH_INFO` through the `*subpath` route -/
+theorem sub_mount_contained_with_overrides (fs : Fs) (w : OvView) (hw : OvWf w)
+    (hroot : pkgIsDir fs w (pkgResourcePath w.v.docroot []) = true) (ae : Option (List Enc)) (pfx : Text)
+    (wsgi : Bytes) (p : Text)
+    (h : (∃ e b, serveSubOv fs w ae pfx wsgi = .file p e b) ∨ serveSubOv fs w ae pfx wsgi = .isADirectory p) :
+    Under (pkgRoot w.v) p ∨ ∃ o ∈ w.ovs, InOverride o p := by
+  unfold serveSubOv at h
+  cases hd : decodePathInfo wsgi with
+  | none => simp [hd] at h
+  | some t =>
+    simp only [hd] at h
+    cases hm : routeRemainder pfx (if t = [] then ['/'] else t) with
+    | none => simp [hm] at h
+    | some rest =>
+      simp only [hm] at h
+      exact staticViewOv_where fs w hw hroot ae _ _ p h
+
+/-- … and through traversal + `use_subpath=False` -/
+theorem plain_mount_contained_with_overrides (fs : Fs) (w : OvView) (hw : OvWf w)
+    (hroot : pkgIsDir fs w (pkgResourcePath w.v.docroot []) = true) (ae : Option (List Enc)) (wsgi : Bytes) (p : Text)
+    (h : (∃ e b, servePlainOv fs w ae wsgi = .file p e b) ∨ servePlainOv fs w ae wsgi = .isADirectory p) :
+    Under (pkgRoot w.v) p ∨ ∃ o ∈ w.ovs, InOverride o p := by
+  unfold servePlainOv at h
+  cases hd : decodePathInfo wsgi with
+  | none => simp [hd] at h
+  | some t =>
+    simp only [hd] at h
+    by_cases hreach : traversalReaches (splitPathInfo (if t = [] then ['/'] else t)) = true
+    · simp only [hreach, if_true] at h
+      exact staticViewOv_where fs w hw hroot ae _ _ p h
+    · simp [hreach] at h
+
+/-- a package-root view (`pkg:`) whose whole package is overridden from an absolute directory, and a nested
+directory override from another package on top of it: the F-C16f configuration and more -/
+def exOvView : OvView :=
+  { v := { pkg := true, base := "/opt/pkg".toList, docroot := [], index := "index.html".toList, encs := [("gzip", [".gz".toList])] }
+    ovs := [{ path := "static/".toList, src := .pkg "/opt/two".toList "alt/".toList },
+            { path := [], src := .fs "/srv/ov/".toList },
+            { path := "static/one.css".toList, src := .fs "/srv/single.css".toList }] }
+
+def exOvFs : Fs :=
+  let dirs : List Text := ["/opt/pkg".toList, "/opt/pkg/static".toList, "/srv/ov".toList, "/opt/two/alt".toList]
+  let files : List Text := ["/opt/pkg/static/a.css".toList, "/srv/ov/static/a.css".toList, "/srv/ov/index.html".toList,
+    "/opt/two/alt/b.css".toList, "/srv/single.css".toList, "/etc/passwd".toList, "/srv/secret".toList]
+  { isDir := fun p => dirs.contains (rstripSlash p)
+    isThere := fun p => dirs.contains (rstripSlash p) || files.contains p
+    size := fun _ => 10 }
+
+example : OvWf exOvView ∧ pkgIsDir exOvFs exOvView (pkgResourcePath exOvView.v.docroot []) = true := by decide
+
+/-- non-vacuity, and the regression witness of the repaired F-C16f: the override sources answer in their order, the
+package answers when they do not have the file, the root index comes from the whole-package override (resource name
+`/index.html`, leading slash stripped by the source), and an absolute path spelled by the request stays inside -/
+theorem override_examples :
+    staticViewOv exOvFs exOvView none false ["static".toList, "b.css".toList] = .file "/opt/two/alt/b.css".toList none false ∧
+    staticViewOv exOvFs exOvView none false ["static".toList, "a.css".toList] = .file "/srv/ov/static/a.css".toList none false ∧
+    staticViewOv exOvFs exOvView none true [] = .file "/srv/ov/index.html".toList none false ∧
+    staticViewOv exOvFs exOvView none false ["etc".toList, "passwd".toList] = .notFound ∧
+    staticViewOv exOvFs exOvView none false ["srv".toList, "secret".toList] = .notFound := by decide
+
+/-- what 3e07f6a repaired, on the model's own functions: with the resource name `/etc/passwd` (leading slash, as the
+old `'{}/{}'.format('', path)` produced it) an `os.path.join(prefix, name)` WITHOUT `lstrip('/')` discards the prefix -/
+theorem unstripped_join_escapes :
+    pjoin "/srv/ov/".toList "/etc/passwd".toList = "/etc/passwd".toList ∧
+    (Source.fs "/srv/ov/".toList).osPath "/etc/passwd".toList = "/srv/ov/etc/passwd".toList ∧
+    pkgResourcePath [] "etc/passwd".toList = "etc/passwd".toList := by decide
+
+/-- PARTIAL (finding F-C16g): "404, redirect or a file" fails for a package-relative view when the resource name is
+absolute for Windows but not for POSIX (`\x`, `C:/x` below a package-root spec): pkg_resources raises ValueError. -/
+theorem windows_absolute_name_raises :
+    staticViewOv exOvFs { exOvView with ovs := [] } none false ["\\x".toList] = .valueError ∧
+    staticViewOv exOvFs { exOvView with ovs := [] } none false ["C:".toList, "x".toList] = .valueError ∧
+    staticViewOv exOvFs { exOvView with ovs := [] } none false ["x".toList] = .notFound := by decide
 
 end Pyr.Static
 
